@@ -753,6 +753,14 @@ impl Parse for ImplGroups {
                 .insert(item, param_bounds);
         }
 
+        // NOTE: A malformed block is reported as such even if no impl group can be formed with it
+        let item_impls = impl_groups.values().flat_map(|impl_group| impl_group.keys());
+        if let Some(trait_) = &main_trait {
+            validate::validate_trait_impls(trait_, item_impls);
+        } else if let Some((_, trait_, _)) = item_impls.filter_map(|item| item.trait_.as_ref()).next() {
+            abort!(trait_, "Expected inherent impl but found trait");
+        }
+
         let (mut supersets, subsets) = make_sets(impl_groups.keys());
 
         let impl_groups = supersets
